@@ -111,6 +111,25 @@ func init() {
 		h := x.heapGet(st, hpComp(s), hpSort(s))
 		nv := x.freshVar("decoded", s)
 		st.assume(x.wf(st, nv, ptr.Elem()))
+		// scalar top-level fields: a key present in the source overwrites the field, an absent key leaves it as it was
+		// (mapstructure's default behaviour); what "present" and the decoded value are is left uninterpreted
+		if stt, ok := types.Unalias(ptr.Elem()).Underlying().(*types.Struct); ok && args[0].T != nil && args[0].T.Sort == SIface {
+			oldv := Select(h, addr)
+			for i := 0; i < stt.NumFields(); i++ {
+				fs := x.TI.SortOf(stt.Field(i).Type())
+				if fs != SReal && fs != SInt && fs != SBool && fs != SStr {
+					continue
+				}
+				if _, isPtr := types.Unalias(stt.Field(i).Type()).Underlying().(*types.Pointer); isPtr {
+					continue
+				}
+				if _, isMap := types.Unalias(stt.Field(i).Type()).Underlying().(*types.Map); isMap {
+					continue
+				}
+				has, val := x.decodedTerms(args[0].T, stt.Field(i).Name(), fs)
+				st.assume(Eq(x.TI.FieldSel(s, i, nv), Ite(has, val, x.TI.FieldSel(s, i, oldv))))
+			}
+		}
 		st.heap[hpComp(s)] = Store(h, addr, nv)
 		// write back if the target was a materialised local
 		for _, m := range st.mats {
@@ -295,3 +314,13 @@ func itoa(n int) string {
 }
 
 var _ = types.Typ
+
+
+// decodedTerms: "the source of a DecodeToStruct names this field" and "the value it gives it" (uninterpreted).
+func (x *Exec) decodedTerms(src *Term, field string, fs Sort) (*Term, *Term) {
+	x.U.Declare("dec_has", SBool, SIface, SStr)
+	vn := "dec_val_" + mangleSort(fs)
+	x.U.Declare(vn, fs, SIface, SStr)
+	k := x.TI.StrLit(field)
+	return App("dec_has", SBool, src, k), App(vn, fs, src, k)
+}
